@@ -239,6 +239,7 @@ public:
             if (p < 0) break;
             int w = -1;
             for (int i = 0; i < nworkers; ++i) if (pids[i] == p) w = i;
+            if (getenv("VR_DEBUG")) fprintf(stderr, "[runner] reaped pid %d slot %d status 0x%x alive %d\n", (int) p, w, status, alive);
             if (w < 0) continue;
             pids[w] = -1;
             bool normal = WIFEXITED(status) && WEXITSTATUS(status) == 0;
